@@ -112,7 +112,7 @@ func runC15Overlap(e *Env) {
 		srcs = []*Src{s}
 		switch sc.Sub {
 		case "Retry":
-			o = ro.RetryWithConfig[int](ro.RetryConfig{MaxRetries: uint64(sc.Int("max", 0)), ResetOnSuccess: sc.Int("reset", 0) == 1})(s.Obs())
+			o = ro.RetryWithConfig[int](ro.RetryConfig{MaxRetries: c15MaxRetries(sc), ResetOnSuccess: sc.Int("reset", 0) == 1})(s.Obs())
 		default:
 			o = ro.RepeatWith[int](int64(sc.Int("count", 1)))(s.Obs())
 		}
